@@ -848,6 +848,43 @@ def run_literal_cases(ctx, binary, cases, what, limits):
     return ok, fails
 
 
+# ------------------------------------------------------------------------------------------
+# scale family (round 9): the data a program builds, one dimension at a time, sizes far beyond any hidden threshold; closed-form oracle
+# (generators: tools/c02_scale.py)
+
+
+def scale_check(rec, exp):
+    """None when the record is the expected one, else (description, is_crash)"""
+    bad = bad_record(rec)
+    if bad:
+        return bad, True
+    if rec.result[0] != "ok" or rec.output != exp:
+        got = rec.output
+        k = next((i for i, (a, b) in enumerate(zip(got, exp)) if a != b), min(len(got), len(exp)))
+        return "result %s %s; printed line %d: got %r, expected %r" % (rec.result[0], rec.messages[:1], k, [x[:120] for x in got[k:k + 1]], [x[:120] for x in exp[k:k + 1]]), False
+    return None
+
+
+def run_scale_rung(ctx, rung):
+    """one rung of the plan: (label, #ok, failures [(family, n, variant, source, expected, description)])"""
+    label, prof, opts, quarantine, cases = rung
+    bbin = ctx.harness(prof)
+    lines = ["run %s %s" % (opts, hx(c[3])) for c in cases]
+    recs = yvlib.run_harness(bbin, lines, quarantine=quarantine, case_timeout_ms=60000, recycle=4)
+    fails = []
+    ok = 0
+    for c, ln, r in zip(cases, lines, recs):
+        d = scale_check(r, c[4])
+        if d is not None:   # repeated alone in a fresh process before it counts (loaded machine, quarantine never returns memory)
+            r = yvlib.run_harness(bbin, [ln], quarantine=quarantine, case_timeout_ms=240000, shards=1, recycle=1)[0]
+            d = scale_check(r, c[4])
+        if d is None:
+            ok += 1
+        else:
+            fails.append((c[0], c[1], c[2], c[3], c[4], d[0]))
+    return label, prof, opts, quarantine, ok, fails
+
+
 def run_iter_cases(ctx, binary, cases, what):
     """returns (#agree, #differ, failures[(source, description)], first differences)"""
     group = 24
@@ -1481,6 +1518,14 @@ def run(ctx):
                 ctx.violation(rp.get("what", "replay"), input=rp.get("input"), snippets=snips, expected="every run: Ok or Err(Error)", actual=bad)
             ctx.cov.update({"evaluations": 1, "distinct_nontrivial": 1, "rule": "replay of one recorded snippet sequence", "samples": [rp["snippets"][1][:300]]})
             return
+        if rp.get("scale_rung"):
+            prof, opts, quar = rp["scale_rung"]
+            r = yvlib.run_harness(ctx.harness(prof), ["run %s %s" % (opts, hx(rp["input"]))], quarantine=quar, case_timeout_ms=240000, shards=1)[0]
+            d = scale_check(r, rp["expected_lines"])
+            if d is not None:
+                ctx.violation(rp.get("what", "replay"), input=rp["input"], expected=rp.get("expected"), actual=d[0], scale_rung=rp["scale_rung"], expected_lines=rp["expected_lines"])
+            ctx.cov.update({"evaluations": 1, "distinct_nontrivial": 1, "rule": "replay of one recorded scale case", "samples": [rp["input"][:300]]})
+            return
         if rp.get("family") is not None and rp.get("size") is not None:
             one = [c for c in gen_literal_cases() if c[0] == rp["family"] and c[1] == rp["size"]]
             bbin = ctx.harness("release") if rp.get("build") == "release" else binary
@@ -1606,6 +1651,30 @@ def run(ctx):
             ctx.violation("%s with %d elements (%s build): %s" % (fam, n_, bname, ("does not end in a value or a reported error: " if is_panic else "wrong result: ") + bad),
                           input=src_, expected="the values known by construction" if n_ <= 255 else "CompileError", actual=bad, build=bname, family=fam, size=n_)
     log('[C02] literal-size cases: %d x 2 builds in %.1fs' % (len(lcases), time.time() - t0))
+    t0 = time.time()
+    # ---- scale family: chains / wide containers / trees / strings / histories of the data a program builds; closed-form results ----
+    import c02_scale
+    from concurrent.futures import ThreadPoolExecutor
+    splan = c02_scale.plan(quick)
+    for _l, prof_, _o, _q, _c in splan:
+        ctx.harness(prof_)
+    with ThreadPoolExecutor(max_workers=len(splan)) as ex_:
+        sres = list(ex_.map(lambda rung: run_scale_rung(ctx, rung), splan))
+    scale_cases = sum(len(r[4]) for r in splan)
+    scale_fams = {}
+    scale_bad = 0
+    for label, prof_, opts_, quar_, s_ok, s_fails in sres:
+        hist["scale:%s%s:ok" % (prof_, "" if opts_ == "-" else ":" + opts_)] = s_ok
+        hist["scale:%s%s:fail" % (prof_, "" if opts_ == "-" else ":" + opts_)] = len(s_fails)
+        for fam, n_, var_, src_, exp_, bad in sorted(s_fails, key=lambda f: f[1]):
+            scale_bad += 1
+            if scale_bad <= 4:
+                ctx.violation("scale family %s at size %d (roots in %s; %s): the program does not print the values known in closed form: %s" % (fam, n_, var_, label, bad),
+                              input=src_, expected="Ok, printed lines " + str([x[:60] for x in exp_[:6]]), actual=bad, scale_rung=[prof_, opts_, quar_], expected_lines=exp_, family=fam, size=n_)
+    for _l, _p, _o, _q, cs_ in splan:
+        for c_ in cs_:
+            scale_fams.setdefault(c_[0], set()).add(c_[1])
+    log('[C02] scale cases: %d in %.1fs' % (scale_cases, time.time() - t0))
     t0 = time.time()
     # ---- aliasing: the receiver (or a holder / part / iterator of it) as its own argument ----
     acases = gen_alias_cases(ctx, quick)
@@ -1736,8 +1805,8 @@ def run(ctx):
     log('[C02] site check: %d functions in %.1fs' % (fns, time.time() - t0))
     ncalls = len(probes) + len(dprobes)
     ctx.cov.update({
-        "operator_probes": len(ops), "iterator_misuse_cases": len(icases), "same_object_cases": len(tcases), "literal_size_cases": len(lcases) * 2, "aliasing_cases": len(acases), "multi_snippet_cases": len(rcases), "multi_snippet_snippets": repl_snips,
-        "evaluations": ncalls + len(ops) + len(icases) + len(tcases) + 2 * len(lcases) + len(acases) + len(rcases) + len(lts) + len(progs) * len(builds) + len(KNOWN) + (len(probes) if not quick else 0),
+        "operator_probes": len(ops), "iterator_misuse_cases": len(icases), "same_object_cases": len(tcases), "literal_size_cases": len(lcases) * 2, "scale_cases": scale_cases, "scale_sizes_by_family": {k: sorted(v) for k, v in sorted(scale_fams.items())}, "aliasing_cases": len(acases), "multi_snippet_cases": len(rcases), "multi_snippet_snippets": repl_snips,
+        "evaluations": ncalls + len(ops) + len(icases) + len(tcases) + 2 * len(lcases) + scale_cases + len(acases) + len(rcases) + len(lts) + len(progs) * len(builds) + len(KNOWN) + (len(probes) if not quick else 0),
         "distinct_nontrivial": len(nontrivial),
         "rule": "native calls: distinct (native, fiber context, receiver kind, argument-kind vector) combinations whose outcome is NOT an arity error "
                 "(the call got past check_num_args / the at-most-1 test); kinds as in NativesModel.akind (number class, vec length, tuple hashability, "
